@@ -65,6 +65,8 @@ class StackWorld(object):
     self.H = H
     world.SHIMS['aperture'].randint_domain = lambda a, b: [a] if b - a > 8 else list(range(a, b + 1))
     world.SHIMS['thriftmux'].randint_domain = lambda a, b: [a]
+    if params.get('tag_jump'):
+      world.tag_jump(*params['tag_jump'])
     stack = params['stack']
     n = params.get('endpoints', 1)
     self.addrs = [('h%d' % i, 1000 + i) for i in range(n)]
